@@ -3,10 +3,6 @@ package server
 import (
 	"errors"
 	"os"
-	"strconv"
-	"time"
-
-	"github.com/tidwall/resp"
 )
 
 // C06-K2: a follower never reports caught-up (HEALTHZ ok, caught_up true) while it still lacks commands the
@@ -20,120 +16,17 @@ import (
 // with the same call sites redirected textually (native_patch.json), so the same stubs run under the real
 // followStep, followHandleCommand, handlers and log writer.
 
-//verif:replace[c06b] github.com/tidwall/tile38/internal/server.DialTimeout => vhC06bDial
-//verif:replace[c06b] github.com/tidwall/tile38/internal/server.doServer => vhC06bServer
 //verif:replace[c06b] (*github.com/tidwall/tile38/internal/server.Server).followCheckSome => vhC06bCheckSome
-//verif:replace[c06b] (*github.com/tidwall/tile38/internal/server.RESPConn).Do => vhC06bDo
-//verif:replace[c06b] (*github.com/tidwall/tile38/internal/server.RESPConn).Close => vhC06bClose
-//verif:replace[c06b] (*github.com/tidwall/resp.Reader).ReadMultiBulk => vhC06bReadMB
-
-var vh06b struct {
-	active    bool
-	s         *Server
-	cmds      [][]string // the leader's log at the moment of the connect
-	have      int        // how many of them the follower had applied before
-	sent      int        // streamed so far
-	failAt    int        // stage at which the leader connection fails (-1: after the stream)
-	stage     int
-	violated  bool
-	observed  int
-	leaderLen int
-}
-
-func vhC06bLogLen(cmds [][]string) int {
-	n := 0
-	for _, c := range cmds {
-		n += len(vhEncode(c...))
-	}
-	return n
-}
-
-// vhC06bObserve: what a client asking HEALTHZ / SERVER at this instant would be told
-func vhC06bObserve() {
-	s := vh06b.s
-	vh06b.observed++
-	col, _ := s.cols.Get("k")
-	applied := 0
-	if col != nil {
-		applied = col.Count()
-	}
-	if s.caughtUp() && applied < len(vh06b.cmds) {
-		vh06b.violated = true
-	}
-}
-
-func vhC06bFail(stage int) bool {
-	vhC06bObserve()
-	vh06b.stage = stage
-	return vh06b.failAt == stage
-}
-
-func vhC06bDial(address string, timeout time.Duration) (*RESPConn, error) {
-	if !vh06b.active {
-		return DialTimeout(address, timeout)
-	}
-	if vhC06bFail(0) {
-		return nil, errors.New("connection refused")
-	}
-	return &RESPConn{}, nil
-}
-
-func vhC06bClose(c *RESPConn) error {
-	if !vh06b.active {
-		return c.Close()
-	}
-	return nil
-}
-
-func vhC06bServer(conn *RESPConn) (map[string]string, error) {
-	if !vh06b.active {
-		return doServer(conn)
-	}
-	if vhC06bFail(1) {
-		return nil, errors.New("connection reset")
-	}
-	return map[string]string{"id": "leader1", "aof_size": strconv.Itoa(vh06b.leaderLen)}, nil
-}
 
 // the follower's log is an intact prefix of the leader's (C06-K1 decides the other cases): resume at its end
 func vhC06bCheckSome(s *Server, addr string, followc int, auth string) (int64, error) {
-	if !vh06b.active {
+	if !vh06b.active || vh06b.realCheckSome {
 		return s.followCheckSome(addr, followc, auth)
 	}
 	if vhC06bFail(2) {
 		return 0, errors.New("connection reset")
 	}
 	return int64(s.aofsz), nil
-}
-
-func vhC06bDo(conn *RESPConn, commandName string, args ...interface{}) (resp.Value, error) {
-	if !vh06b.active {
-		return conn.Do(commandName, args...)
-	}
-	st := 3
-	if commandName == "aof" {
-		st = 4
-	}
-	if vhC06bFail(st) {
-		return resp.Value{}, errors.New("connection reset")
-	}
-	return resp.SimpleStringValue("OK"), nil
-}
-
-func vhC06bReadMB(rd *resp.Reader) (resp.Value, bool, int, error) {
-	if !vh06b.active {
-		return rd.ReadMultiBulk()
-	}
-	if vhC06bFail(5+vh06b.sent) || vh06b.have+vh06b.sent >= len(vh06b.cmds) {
-		return resp.Value{}, false, 0, errors.New("connection lost")
-	}
-	c := vh06b.cmds[vh06b.have+vh06b.sent]
-	vh06b.sent++
-	vals := make([]resp.Value, len(c))
-	for i, a := range c {
-		vals[i] = resp.StringValue(a)
-	}
-	return resp.ArrayValue(vals), false, len(vhEncode(c...)), nil
 }
 
 //verif:cfg use=c06b,c08 b_leader_log=0..4_commands b_follower_has=a_prefix_of_it_(0..2_commands) b_earlier_session=caught_up_before_or_not b_connection_fails_at=dial|SERVER|checksum|REPLCONF|AOF|after_each_streamed_command|never b_observations=every_leader_interaction_and_after_the_step ignorego=1
@@ -169,6 +62,7 @@ func VH_C06_reconnect() {
 	}
 	vh06b.active, vh06b.s, vh06b.cmds, vh06b.have, vh06b.sent = true, s, cmds, have, 0
 	vh06b.violated, vh06b.observed, vh06b.stage = false, 0, -1
+	vh06b.supersedeAt, vh06b.onSupersede, vh06b.realCheckSome = -1, nil, false
 	vh06b.leaderLen = vhC06bLogLen(cmds)
 	vh06b.failAt = vchoose(5+more+1) - 1 // -1 = the stream just ends (connection lost after the last command)
 	err := s.followStep("leader", 9851, 0)
